@@ -73,6 +73,27 @@ def _standin(rep, tier, seed, only_search=False):
         distinct.add((cfg["kclass"], cfg["weight"], skew, form))
         if only_search and not ok:
             return
+    # the same statement through fit_transform (both coordinate conventions): the imaged region is learned from the diagram, the
+    # pixels are the weighted kernel mass on that region
+    for it in range(12 if tier == "quick" else 300):
+        cfg = ic.rand_cfg(rng)
+        dgm = [p for p in ic.rand_dgm(rng, rng.randint(2, 4), cfg, outside=False)]
+        if len({p[0] for p in dgm}) < 2 or len({round(p[1] - p[0], 9) for p in dgm}) < 2:
+            continue
+        skew = rng.random() < 0.5
+        pi = ic.make_imager(cfg)
+        import warnings as _w
+        with _w.catch_warnings():
+            _w.simplefilter("ignore")
+            got = pi.fit_transform(np.array(dgm if skew else [[b, d - b] for b, d in dgm], dtype=float), skew=skew)
+        want = ic.oracle_image(dgm, True, pi.birth_range, pi.pers_range, cfg["pixel_size"], cfg["weight"], cfg["weight_params"], cfg["kernel"], cfg["kernel_params"], pi._bpnts, pi._ppnts)
+        evals += 1
+        distinct.add(("fit_transform", cfg["kclass"], cfg["weight"], skew))
+        if got.shape != want.shape or not np.all(np.isfinite(got)) or float(np.max(np.abs(got - want))) > ic.pixel_tol(dgm, cfg):
+            rep.violation("fit_transform(diagram, skew=%s): image differs from the weighted kernel mass on the fitted region by %r (kernel %s, weight %s)" % (skew, float(np.max(np.abs(got - want))) if got.shape == want.shape else "shape", cfg["kclass"], cfg["weight"]),
+                          "image:fit_transform", {"input": {"config": cfg, "diagram": dgm, "skew": skew, "via": "fit_transform"}})
+            if only_search:
+                return
     if not only_search:
         rep.bounded("pixels-vs-independent-kernel-mass", "%d random imagers (6 kernel classes incl. |r| up to 0.97, 2 weights) x diagrams of 1..4 points inside / on the border / outside; integer-valued diagrams as int arrays and nested lists" % n,
                     evals, len(distinct), "distinct = (kernel class, weight, skew, size); oracle: scipy norm / multivariate_normal CDFs + inclusion-exclusion, box overlap; tolerance 2e-7 * total weight",
